@@ -1005,18 +1005,26 @@ func bcSilentProxyAndSpare(t *testing.T, inst *bcInst) string {
 
 // many proxies of one class waiting at once (far more than the generated histories use): the pools stay apart
 func bcManyWaiting(t *testing.T, inst *bcInst) string {
-	const nR, nU = 300, 4
+	// more waiting proxies of one kind than any plausible preallocation of the pools (a pool that grows into its
+	// neighbour's storage shows only then); half of the unrestricted ones register before the crowd, half after it
+	const nR, nU = 1100, 4
 	var polls []*bcReq
+	unres := func(from, to int) {
+		for i := from; i < to; i++ {
+			p := &bcReq{kind: 'P', id: 2000 + i, wireNat: "unrestricted", nat: "unrestricted", clients: i}
+			polls = append(polls, p)
+			inst.start(p)
+		}
+	}
+	unres(0, nU/2)
+	bcWait(func() bool { hu, hr, _, _ := inst.counts(); return hu+hr == nU/2 }, 5*time.Second)
 	for i := 0; i < nR; i++ {
-		p := &bcReq{kind: 'P', id: 1000 + i, wireNat: "restricted", nat: "restricted", clients: i % 5}
+		p := &bcReq{kind: 'P', id: 10000 + i, wireNat: "restricted", nat: "restricted", clients: i % 5}
 		polls = append(polls, p)
 		inst.start(p)
 	}
-	for i := 0; i < nU; i++ {
-		p := &bcReq{kind: 'P', id: 2000 + i, wireNat: "unrestricted", nat: "unrestricted", clients: i}
-		polls = append(polls, p)
-		inst.start(p)
-	}
+	bcWait(func() bool { hu, hr, _, _ := inst.counts(); return hu+hr == nR+nU/2 }, 8*time.Second)
+	unres(nU/2, nU)
 	bcWait(func() bool { hu, hr, _, _ := inst.counts(); return hu+hr == nR+nU }, 8*time.Second)
 	var clients []*bcReq
 	for i := 0; i < nU+1; i++ { // restricted clients need unrestricted proxies: nU are matched, one more is denied
@@ -1259,7 +1267,76 @@ func bcBridgeReloaded(t *testing.T, inst *bcInst) string {
 	return desc
 }
 
+// the other entry points: a proxy poll that announces protocol version 1.10 (raw JSON through the real /proxy
+// handler) and a legacy client whose NAT type travels in the Snowflake-NAT-Type header (real /client handler).
+// NAT compatibility must not depend on how a request was spelled.
+func bcOtherEntryPoints(t *testing.T, inst *bcInst) string {
+	desc := "poll A: unrestricted, version 1.10, 8 clients (raw JSON over HTTP); poll B: restricted (IPC); client 161: restricted (IPC); then legacy client: header Snowflake-NAT-Type: unrestricted (HTTP)"
+	mux := http.NewServeMux()
+	mux.Handle("/proxy", SnowflakeHandler{inst.ipc, proxyPolls})
+	mux.Handle("/client", SnowflakeHandler{inst.ipc, clientOffers})
+	srv := httptest.NewServer(mux)
+	defer srv.Close()
+	type httpRes struct {
+		status int
+		body   []byte
+	}
+	post := func(path string, hdr map[string]string, body string) chan httpRes {
+		ch := make(chan httpRes, 1)
+		go func() {
+			req, _ := http.NewRequest("POST", srv.URL+path, strings.NewReader(body))
+			for k, v := range hdr {
+				req.Header.Set(k, v)
+			}
+			resp, err := (&http.Client{Timeout: 40 * time.Second}).Do(req)
+			if err != nil {
+				ch <- httpRes{-1, []byte(err.Error())}
+				return
+			}
+			defer resp.Body.Close()
+			var buf bytes.Buffer
+			buf.ReadFrom(resp.Body)
+			ch <- httpRes{resp.StatusCode, buf.Bytes()}
+		}()
+		return ch
+	}
+	pollA := post("/proxy", nil, `{"Sid":"entry-A","Version":"1.10","Type":"standalone","NAT":"unrestricted","Clients":8,"AcceptedRelayPattern":"$"}`)
+	bcWait(func() bool { hu, hr, _, _ := inst.counts(); return hu+hr == 1 }, 5*time.Second)
+	pB := &bcReq{kind: 'P', id: 11, wireNat: "restricted", nat: "restricted"}
+	inst.start(pB)
+	bcWait(func() bool { hu, hr, _, _ := inst.counts(); return hu+hr == 2 }, 5*time.Second)
+	if hu, hr, _, _ := inst.counts(); hu != 1 || hr != 1 {
+		desc += fmt.Sprintf(" POOLS-WRONG: %d proxies in the unrestricted pool and %d in the restricted one, one each expected", hu, hr)
+	}
+	c := &bcReq{kind: 'C', id: 161, wireNat: "restricted", nat: "restricted"}
+	inst.start(c)
+	var a httpRes
+	select {
+	case a = <-pollA:
+	case <-time.After(5 * time.Second):
+		a = httpRes{-2, nil}
+	}
+	offerA, _, _, _ := messages.DecodePollResponseWithRelayURL(a.body)
+	if a.status != 200 || offerA != "offer-161" {
+		desc += fmt.Sprintf(" DENIED-ALTHOUGH-ELIGIBLE: the restricted client was not handed to the unrestricted poll of version 1.10 (poll A: status %d offer %q; client outcome %q)", a.status, offerA, c.outcome)
+	}
+	legacy := post("/client", map[string]string{"Snowflake-NAT-Type": "unrestricted"}, `{"type":"offer","sdp":"offer-160"}`)
+	bcWait(pB.isDone, 5*time.Second)
+	if !pB.isDone() || !strings.HasPrefix(pB.outcome, "matched") {
+		st := "still waiting"
+		select {
+		case l := <-legacy:
+			st = fmt.Sprintf("answered with status %d", l.status)
+		default:
+		}
+		desc += fmt.Sprintf(" UNRESTRICTED-CLIENT-REFUSED: the legacy client announcing an unrestricted NAT was not handed to the waiting restricted poll (poll B: %q; legacy request %s)", pB.outcome, st)
+	}
+	bcWait(func() bool { return !inst.anyPending() }, bcTimeout()+bcTimeout())
+	return desc
+}
+
 var bcScenarios = []bcScenario{
+	{"other-entry-points", bcOtherEntryPoints},
 	{"bridge-list-reloaded-between-check-and-hand-over", bcBridgeReloaded},
 	{"client-goes-away-after-the-match", bcClientGoesAway},
 	{"burst-of-polls-while-lock-held", bcBurstWhileLocked},
@@ -1318,6 +1395,9 @@ func runBrokerScenarios(t *testing.T, r *vh.Run, prop string) {
 			}
 			if strings.Contains(o.desc, "UNRESTRICTED-CLIENT-") {
 				r.OracleFail("unrestricted-client-not-served-from-restricted-pool", line, trunc1k(o.real), "a client reporting an unrestricted NAT is served from the pool of restricted/unknown proxies, and refused only if none of them waits")
+			}
+			if strings.Contains(o.desc, "POOLS-WRONG") {
+				r.OracleFail("proxy-filed-in-the-wrong-pool", line, trunc1k(o.real), "a poll is offered to clients according to the NAT type it reported, whatever protocol version it announces")
 			}
 			if strings.Contains(o.desc, "DENIED-ALTHOUGH-ELIGIBLE") || strings.Contains(o.desc, "WRONG-DENIALS") {
 				r.OracleFail("denied-although-eligible-proxy-waiting", line, trunc1k(o.real), "a client is refused only if no compatible proxy is waiting")
